@@ -51,7 +51,12 @@ class G:
         sep = '| ' + ' | '.join('---' for _ in range(ncol)) + ' |'
         cells = lambda ln: [('TableCell', ln, []) for _ in range(ncol)]  # noqa: E731
         nodes = [('Table', 0, [('TableRow', 0, cells(0))] + [('TableRow', 2 + i, cells(2 + i)) for i in range(nrow)])]
-        return [row, sep] + [row] * nrow, nodes
+        body = [row] * nrow
+        if nrow and rng.random() < 0.3:
+            # a body line made of pipes and blanks only is a row like any other (of empty cells)
+            self.kinds['table_row_of_pipes_only'] = self.kinds.get('table_row_of_pipes_only', 0) + 1
+            body[rng.randrange(nrow)] = '|' + rng.choice([' |', '  |', '|'][:2 if ncol > 1 else 3]) * ncol if ncol > 1 else rng.choice(['|', '| |', '||'])
+        return [row, sep] + body, nodes
 
     def shift(self, nodes, d):
         return [(k, ln + d, self.shift(ch, d)) for (k, ln, ch) in nodes]
